@@ -44,17 +44,6 @@ def showEv : Ev → String
   | .resized op n => s!"resized({op},{n})"
   | .closedEv op => s!"closed({op})"
 
-/-- objects an operation holds (alive, neither idle nor in a caller's hands) -/
-def heldObj : Op → Option Obj
-  | .get _ (.recycling _ o _) => some o
-  | .get _ (.createSize o) => some o
-  | .get _ (.postCreate _ o _) => some o
-  | .get _ (.unreadyLock o _) => some o
-  | .get _ (.unreadyDetach o _) => some o
-  | .ret .users o | .ret .lock o | .ret .detach o => some o
-  | .take _ o _ => some o
-  | _ => none
-
 def sortNat (xs : List Nat) : List Nat := (xs.toArray.qsort (· < ·)).toList
 
 /-- waiters whose waker has fired: assigned a permit, or woken by `close` -/
@@ -69,7 +58,7 @@ def obsLine (s : State) (i : Nat) (logFrom : Nat) : String :=
   let op := s.ops.getD i .done
   let locked := s.lock.isSome
   let q (x : String) := if locked then "?" else x
-  let live := sortNat ((s.idle ++ s.out ++ s.ops.filterMap heldObj).map Obj.id)
+  let live := sortNat (s.live.map Obj.id)
   let evs := ((s.log.drop logFrom).map showEv).filter (· ≠ "")
   s!"obs op={i} lbl={op.label s.cfg} susp={if op.suspended then 1 else 0} " ++
   s!"permits={s.sem.permits} closed={if s.sem.closed then 1 else 0} users={s.users} " ++
